@@ -16,7 +16,8 @@ CONSTANTS Services,   \* service types (Rust types implementing RpcService)
           Handles,    \* service type -> set of message names it registers
           AllMsgs,    \* every message name a client may send
           MaxLen, FixD1, EmitHist,
-          WithInFlight   \* TRUE: requests may be held inside their handler while services are added / removed
+          WithInFlight,  \* TRUE: requests may be held inside their handler while services are added / removed
+          WithPar        \* TRUE: two registry changes may be made at the same time from two threads
 
 VARIABLES services, present, handlers,
           held,     \* services that currently have a request blocked inside its handler (dispatched earlier)
@@ -62,6 +63,32 @@ Remove(s) ==
   /\ exps' = Append(exps, ExpectedServed(reg'))
   /\ UNCHANGED held
 
+\* Two registry changes made at the same time by two threads.  Each takes effect atomically (the maps are changed
+\* under their locks), in one order or the other.  Only pairs whose two orders leave the same services registered are
+\* taken (different names, or the same change twice): the statement then demands exactly that outcome.
+Ops == { <<"add", t>> : t \in Services } \cup { <<"remove", n>> : n \in Names }
+RegAfter(r, o) == IF o[1] = "add" THEN r \cup {o[2]} ELSE { t \in r : NameOf[t] # o[2] }
+StateAfter(S, o) ==
+  IF o[1] = "add"
+  THEN LET t == o[2] IN
+       [services |-> [S.services EXCEPT ![NameOf[t]] = (IF NameOf[t] \in S.present THEN @ ELSE {}) \cup Keys(t)],
+        present |-> S.present \cup {NameOf[t]}, handlers |-> S.handlers \cup Keys(t)]
+  ELSE LET n == o[2] IN
+       IF n \notin S.present THEN S
+       ELSE [services |-> [S.services EXCEPT ![n] = {}], present |-> S.present \ {n},
+             handlers |-> IF FixD1 THEN S.handlers \ S.services[n] ELSE S.handlers \cap S.services[n]]
+Par(o1, o2, firstIsO1) ==
+  LET S == [services |-> services, present |-> present, handlers |-> handlers]
+      T == IF firstIsO1 THEN StateAfter(StateAfter(S, o1), o2) ELSE StateAfter(StateAfter(S, o2), o1)
+  IN /\ WithPar /\ o1 # o2
+     /\ RegAfter(RegAfter(reg, o1), o2) = RegAfter(RegAfter(reg, o2), o1)
+     /\ services' = T.services /\ present' = T.present /\ handlers' = T.handlers
+     /\ reg' = RegAfter(RegAfter(reg, o1), o2)
+     /\ hist' = Append(hist, <<"par", o1, o2>>)
+     /\ exps' = Append(exps, ExpectedServed(reg'))
+     /\ UNCHANGED held
+Pairs == { Q \in SUBSET Ops : Cardinality(Q) = 2 }
+
 \* a request for the service's first message arrives and (if it is dispatched) stays inside its handler;
 \* dispatch is decided by the handler table at arrival - a request in flight keeps nothing registered
 Hold(s) ==
@@ -77,7 +104,9 @@ Release ==
   /\ exps' = Append(exps, ExpectedServed(reg))
   /\ UNCHANGED <<services, present, handlers, reg>>
 
-Next == Len(hist) < MaxLen /\ ((\E t \in Services : Add(t)) \/ (\E s \in Names : Remove(s) \/ Hold(s)) \/ Release)
+Next == Len(hist) < MaxLen /\ (\/ (\E t \in Services : Add(t)) \/ (\E s \in Names : Remove(s) \/ Hold(s)) \/ Release
+                               \/ \E Q \in Pairs, b \in BOOLEAN :
+                                     LET o1 == CHOOSE x \in Q : TRUE  o2 == CHOOSE y \in Q : y # o1 IN Par(o1, o2, b))
 Spec == Init /\ [][Next]_vars
 
 \* ServerState::get_handler: dispatched iff a handler is present under the key
